@@ -124,6 +124,8 @@ class World:
         self.fcount = 0
         self.cmdlog = []
         self.tid = 0
+        self.cmd_fault = None
+        self.cred_url = None
         self.faulted = False
         self.pmap = {}           # symbolic PR index (order of opening) -> real PR id
         self.rng_eval = random.Random(12345)
@@ -287,14 +289,131 @@ class World:
 
     active = None
 
+    # ------------------------------------------------------------ fresh process (C10)
+    def export_snapshot(self, path, job):
+        """Everything a fresh OS process needs to rebuild this world: a copy of the bare repository,
+        the mock host's state as plain data, the settings."""
+        import pickle
+        d = os.path.dirname(path)
+        bare_copy = os.path.join(d, 'bare_' + os.path.basename(path))
+        shutil.rmtree(bare_copy, ignore_errors=True)
+        shutil.copytree(self.bare, bare_copy, symlinks=True)
+        m = self.mock
+        snap = dict(bare=bare_copy, prs=_strip(m.PullRequest.items), comments=list(m.Comment.items),
+                    revisions=dict(m.Repository.revisions), settings_over=self.settings_over,
+                    cmd_line_options=self.cmd_line_options, branches=self.init_branches, job=job,
+                    orig_bare=self.bare)
+        with open(path, 'wb') as f:
+            pickle.dump(snap, f)
+
+    @staticmethod
+    def attach(w, scratch, snap):
+        """Build a World object around an existing bare repository and exported host state."""
+        w.scratch = scratch
+        w.home = os.path.join(scratch, 'home')
+        os.makedirs(w.home, exist_ok=True)
+        os.environ['HOME'] = w.home
+        os.environ['TMPDIR'] = scratch
+        os.environ['GIT_CONFIG_NOSYSTEM'] = '1'
+        tempfile.tempdir = scratch
+        w._import()
+        w._reset_mock()
+        w.cid, w.sha, w.commits, w.trace = {}, {}, {}, []
+        w.k = 0
+        w.ops, w.opidx, w.crash_at, w.before_push, w.current = [], 0, None, {}, None
+        w.fcount, w.cmdlog, w.tid, w.cmd_fault, w.cred_url, w.faulted = 0, [], 0, None, None, False
+        w.pmap = {}
+        w.rng_eval = random.Random(1)
+        w.init_branches = snap['branches']
+        w.hotfix, w.tags0 = [], {}
+        w.settings_over = snap['settings_over']
+        w.cmd_line_options = snap['cmd_line_options']
+        w.clients = {u: w.client(u) for u in (ROBOT, CONTRIB, ADMIN, PEER1, PEER2)}
+        m = w.mock
+        gr = w.libgit.Repository(None)
+        shutil.rmtree(gr.tmp_directory, ignore_errors=True)
+        gr.tmp_directory = gr.cmd_directory = snap['bare']
+        m.Repository.repos[(OWNER, SLUG)] = gr
+        w.hosts = {u: c.get_repository(SLUG, owner=OWNER) for u, c in w.clients.items()}
+        w.bare = snap['bare']
+        m.Repository.revisions = dict(snap['revisions'])
+        m.Comment.items = list(snap['comments'])
+        m.PullRequest.items = _unstrip(snap['prs'], w)
+        w._make_berte()
+        w._install_interposers()
+
+    # ------------------------------------------------------------ credentials (C16)
+    def install_credentials(self, pw, host='bitbucket'):
+        """Give the BertE instance the git repository object a production instance has: URL with the
+        robot's credentials (built by the real git-host code) and the mask derived by the real
+        BertE.__init__; a private git config maps that URL to the local bare repository, and a `git`
+        wrapper early on PATH can make a command fail or hang while printing the URL as git does."""
+        from types import SimpleNamespace
+        from unittest import mock as umock
+        from bert_e.settings import setup_settings
+        if host == 'bitbucket':
+            from bert_e.git_host import bitbucket as hostmod
+            fake_client = SimpleNamespace(auth=SimpleNamespace(username=ROBOT, password=pw), login=ROBOT,
+                                          get_user_id=lambda: 'uid')
+            repo = hostmod.Repository(fake_client, owner=OWNER, repo_slug=SLUG)
+        else:
+            from bert_e.git_host import github as hostmod
+            fake_client = SimpleNamespace(login=ROBOT, password=pw)
+            repo = hostmod.Repository(fake_client, _validate=False, name=SLUG, owner={'login': OWNER},
+                                      full_name='%s/%s' % (OWNER, SLUG))
+        fake_client.get_repository = lambda **kw: repo
+        settings = setup_settings(self.settings_path)
+        settings['repository_host'] = host
+        settings['robot_password'] = pw
+        settings['jira_token'] = 'dummy'
+        settings['cmd_line_options'] = []
+        with umock.patch.object(self.bemod, 'client_factory', lambda *a, **k: fake_client):
+            prod = self.bemod.BertE(settings)          # the real constructor: URL + mask as in production
+        self.cred_url = prod.git_repo._url
+        self.berte.git_repo = prod.git_repo
+        self.berte.settings['robot_password'] = pw
+        subprocess.run(['git', 'config', '--file', os.path.join(self.home, '.gitconfig'),
+                        'url.%s.insteadOf' % self.bare, self.cred_url], check=True)
+        real_git = shutil.which('git')
+        fdir = os.path.join(self.scratch, 'fakebin')
+        os.makedirs(fdir, exist_ok=True)
+        with open(os.path.join(fdir, 'git'), 'w') as f:
+            f.write('#!/bin/sh\n'
+                    'if [ "$VERIF_GIT_FAULT" = fail ]; then\n'
+                    '  echo "remote: Invalid credentials"\n'
+                    '  echo "fatal: unable to access \'$VERIF_GIT_URL/\': The requested URL returned error: 403" >&2\n'
+                    '  echo "fatal: Authentication failed for \'$VERIF_GIT_URL/\'"\n'
+                    '  exit 128\n'
+                    'fi\n'
+                    'if [ "$VERIF_GIT_FAULT" = hang ]; then\n'
+                    '  echo "Fetching origin from $VERIF_GIT_URL"\n'
+                    '  sleep 20\n'
+                    'fi\n'
+                    'exec %s "$@"\n' % real_git)
+        os.chmod(os.path.join(fdir, 'git'), 0o755)
+        if fdir not in os.environ['PATH'].split(':'):
+            os.environ['PATH'] = fdir + ':' + os.environ['PATH']
+
     def _is_robot_ctx(self):
         return self.current is not None
 
     def _git_cmd(self, orig, command, *a, **kw):
         is_push = command.lstrip().startswith('git push')
         cwd = kw.get('cwd', '')
+        if cwd == self.bare:
+            return orig(command, *a, **kw)      # the mock git host's own commands, not Bert-E's
         if self.current is not None:
             self.cmdlog.append(command)
+            cf = self.cmd_fault
+            if cf and len(self.cmdlog) - 1 == cf['at']:
+                os.environ['VERIF_GIT_FAULT'] = cf['mode']
+                os.environ['VERIF_GIT_URL'] = self.cred_url
+                if cf['mode'] == 'hang':
+                    kw['timeout'] = 1.0
+                try:
+                    return orig(command, *a, **kw)
+                finally:
+                    os.environ.pop('VERIF_GIT_FAULT', None)
         if not is_push or self.current is None or cwd == self.bare:
             return orig(command, *a, **kw)
         idx = self.opidx
